@@ -189,23 +189,33 @@ package witness
 //@   ensures[C05.u5] err != nil ==> out == nil || (seenOK && out == gl_val)
 
 // ---- common proof text format (C11): encPre(row, off, k) is the spec-level encoding of the first k hashes
+// (each base64-encoded and followed by "\n"). G_row, G_off, G_k stand for an arbitrary but fixed list of hashes.
 //@ func (Proof).Marshal
 //@   returns (s)
 //@   modifies sb_val
 //@   ensures[C11.m] s == encPre(rowOf(p), offOf(p), len(p))
+//@   hint encPre_0(rowOf(p), offOf(p))
+//@   hint#1 encPre_s(rowOf(p), offOf(p), $i + 1)
 //@   invariant#1 0 <= $i && $i <= len(p) && sb_val[addr(b)] == encPre(rowOf(p), offOf(p), $i)
 //@   decreases#1 len(p) - $i
 
 //@ func (*Proof).Unmarshal
 //@   returns (err)
+//@   let written := str(data) == encPre(G_row(), G_off(), G_k()) && G_k() < 1000000
+//@   let gk      := G_k()
+//@   prefer G_k() <= 4
 //@   requires p != nil
 //@   modifies *p
 //@   // a proof written by Marshal reads back as the list that was written -- for every list of hashes, including the empty one
-//@   ensures[C11.u] forall row Map[bv64]Bytes, off bv64, k bv64 :: str(data) == encPre(row, off, k) && k < 4611686018427387904 ==> err == nil && len(deref(p)) == k
-//@   ensures[C11.v] forall row Map[bv64]Bytes, off bv64, k bv64 :: str(data) == encPre(row, off, k) && k < 4611686018427387904 && err == nil ==>
-//@                  (forall j int :: 0 <= j && j < k ==> str(deref(p)[j]) == str(row[off + j]))
+//@   ensures[C11.u] written ==> err == nil && len(deref(p)) == G_k()
+//@   ensures[C11.u] written && err == nil ==> (forall j int :: 0 <= j && j < G_k() ==> str(deref(p)[j]) == str(G_row()[G_off() + j]))
 //@   // refused input leaves the destination untouched
 //@   ensures[C11.r] err != nil ==> deref(p) == old(deref(p))
+//@   hint encPre_s(G_row(), G_off(), G_k())
+//@   hint encPre_0(G_row(), G_off())
+//@   hint#1 b64_rt(str(G_row()[G_off() + $i]))
 //@   invariant#1 0 <= $i && $i <= len(lines) && len(r) == len(lines) && r != nil
 //@   invariant#1 forall j int :: 0 <= j && j < $i ==> str(r[j]) == b64dec(lines[j])
+//@   invariant#1 written ==> len(lines) == G_k() && (forall j int :: 0 <= j && j < G_k() ==> lines[j] == b64enc(str(G_row()[G_off() + j])))
+//@   invariant#1 written ==> (forall j int :: 0 <= j && j < $i ==> str(r[j]) == str(G_row()[G_off() + j]))
 //@   decreases#1 len(lines) - $i
